@@ -4,7 +4,7 @@
    in CONCRETE toy groups small enough for TLC to do the arithmetic itself:
 
      Group variant   RepresentationProofStructure over zkproof.BuildGroup(23): the subgroup of order
-                     11 of Z_23^*, g = 2, h = 3 (what BuildGroup derives for this prime)
+                     11 of Z_23^*, with the generators g, h that BuildGroup derives for this prime
      Qr variant      QrRepresentationProofStructure over a public key with n = 77 (QR_77 has order
                      15), bases S = 4, Z = 9, R0 = 16
 
@@ -30,11 +30,13 @@ EXTENDS Integers, Sequences, FiniteSets, TLC
 
 P == 23
 Ord == 11
-Gg == 2
-Hh == 3
+CONSTANTS Gg, Hh      \* the generators zkproof.BuildGroup(23) derives (read from the real code by the check before TLC runs)
 N == 77
 OrdN == 15
 
+ASSUME /\ Gg \in 2..(P - 1) /\ Hh \in 2..(P - 1) /\ Gg # Hh
+       /\ \E z \in 1..(P - 1) : (z * z) % P = Gg
+       /\ \E z \in 1..(P - 1) : (z * z) % P = Hh        \* both in the subgroup of squares (order 11)
 RECURSIVE Pow(_, _, _)
 Pow(b, e, m) == IF e = 0 THEN 1 % m ELSE (b * Pow(b, e - 1, m)) % m
 HasInv(x, m) == \E y \in 1..(m - 1) : (x * y) % m = 1
